@@ -258,3 +258,30 @@ func verifReplaceIdent(code, old, new string) string {
 	}
 	return sb.String()
 }
+
+func init() {
+	verifHarness["VerifConstProgram"] = VerifConstProgram
+}
+
+// VerifConstProgram: a constant bound anywhere (inside a function, captured by closures, from a parameter) still
+// evaluates to its original value after the program tried to change it. args: setup program, probe expression,
+// expression of the expected value, reg|noreg
+func VerifConstProgram(args []string) {
+	setup, probe, expected := args[0], args[1], args[2]
+	s, _ := verifNewState(len(args) > 3 && args[3] == "noreg")
+	s.MaxDepth = 80
+	all := []string{setup, probe, expected}
+	vals := verifVals(all)
+	verifSmallVals(all, vals)
+	r := verifRunSession(s, &strings.Builder{}, vals, []string{setup})
+	if r[0].panics != "" {
+		vReach("setup panicked")
+		return
+	}
+	got, want := verifGet(s, probe), verifGet(s, expected)
+	vReach("constant probed")
+	vAssert(got != nil && want != nil, "constant/probe-fails")
+	if got != nil && want != nil {
+		vAssert(verifSame(got, want), "constant/local-value-unchanged")
+	}
+}
